@@ -102,6 +102,10 @@ def program_for(bp, decl, seed, horizon=HORIZON, with_ic=None, region_mode='rand
             a = {'issuer_short_code': d['issuer']}
         elif k == 'GoldStandardGovernment':
             a = {'initial_gold_stock': params[s]['gold']}
+        elif k == 'GoldStandardCentralBank':
+            a = {'initial_gold_stock': params[s]['gold']}
+            if d['tre'] and d['trector']:
+                a['treasury'] = '@' + ref(d['tre'])
         elif k == 'CentralBank':
             if d['tre'] and d['trector']:
                 a = {'treasury': '@' + ref(d['tre'])}
@@ -125,12 +129,15 @@ def program_for(bp, decl, seed, horizon=HORIZON, with_ic=None, region_mode='rand
             prog.append({'op': 'AddVariable', 'sector': ref(s), 'name': 'XTRA', 'desc': 'decorative product', 'eqn': ''})
             prog.append({'op': 'AddTerm', 'sector': ref(s), 'name': 'XTRA',
                          'term': '{%s:LAG_F}*{%s:AlphaFin}' % (ref(s), ref(s))})
-        if k == 'CentralBank' and d['tre'] and not d['trector']:
+        if k in ('CentralBank', 'GoldStandardCentralBank') and d['tre'] and not d['trector']:
             pending_tre.append(s)
         for cb in list(pending_tre):
             if secs[cb - 1]['tre'] in declared and cb in declared:
                 prog.append({'op': 'SetAttr', 'sector': ref(cb), 'attr': 'Treasury', 'value': '@' + ref(secs[cb - 1]['tre'])})
                 pending_tre.remove(cb)
+    for i, d in enumerate(secs, 1):
+        for m in d.get('late', []):
+            prog.append({'op': 'AddMarket', 'sector': ref(i), 'market': ref(m)})
     for r in bp['suppliers']:
         eqn = ''
         if r['rule']:
